@@ -60,6 +60,14 @@ def _make_transform(kind, drop, falsy, calls):
         if kind == "tag":
             f.attributes["tagged"] = ["yes"]
             return f
+        if kind == "copy":
+            # a transform may return a new Feature instead of changing its argument
+            import copy
+
+            g = copy.deepcopy(f)
+            g.attributes["tagged"] = ["copy"]
+            g.source = "copied"
+            return g
         if i in drop:
             return FALSY[falsy]
         return f
@@ -93,7 +101,7 @@ class FormsLeg(object):
                 elif z == 3:
                     r["cols"][4] = str(int(r["cols"][3]) - 1)  # zero-length
                 recs.append(r)
-            kind = draw(st.sampled_from(["none", "tag", "drop", "drop"]))
+            kind = draw(st.sampled_from(["none", "tag", "copy", "drop", "drop"]))
             drop = []
             if kind == "drop":
                 drop = draw(st.lists(st.integers(0, n - 1), unique=True, max_size=max(0, n - 1)))
@@ -194,6 +202,11 @@ class FormsLeg(object):
                                        sig={"kind": "reference-parse"})
                 if seq != lines:
                     return Failure("path form prints %r, input lines %r" % (seq, lines), sig={"kind": "reference-bytes"})
+            if case["transform"] in ("tag", "copy") and form == "path":
+                for line_out in seq:
+                    if ("tagged" not in line_out) or (case["transform"] == "copy" and "\tcopied\t" not in line_out):
+                        return Failure("the Feature returned by the transform (%s) is not what is yielded: %r" % (case["transform"], line_out),
+                                       sig={"kind": "transform-result"})
             if ref_seq is None:
                 ref_seq = seq
             elif seq != ref_seq:
@@ -202,7 +215,7 @@ class FormsLeg(object):
                                % (form, k, cl, seq[k : k + 1], ref_seq[k : k + 1]), sig={"kind": "sequence", "form": form})
             if t is not None and form in ("path", "generator"):
                 # the transform saw each input line exactly once, in order
-                want_seen = lines if case["transform"] != "tag" else None
+                want_seen = lines if case["transform"] not in ("tag",) else None
                 if want_seen is not None and calls["seen"] != want_seen:
                     return Failure("form %s: transform saw %r" % (form, calls["seen"]), sig={"kind": "transform-args", "form": form})
             # ---- import
@@ -289,8 +302,19 @@ class InspectLeg(object):
         else:
             kw = dict(disable_infer_genes=True, disable_infer_transcripts=True) if d["style"] == "gtf" else {}
             data = gffutils.create_db(path, ":memory:", **kw)
+        from gffutils.iterators import DataIterator
+
+        through_iterator = form in ("generator", "list_iterator") and n % 2 == 0
+        if through_iterator:
+            data = DataIterator(data)
         res = inspect(data, look_for=list(case["look_for"]), limit=case["limit"], verbose=False)
         m = n if not case["limit"] else min(n, case["limit"])
+        if through_iterator:
+            # inspect() reports what it iterated: the rest of a one-shot source is still there afterwards
+            rest = sum(1 for _ in data)
+            if rest != n - m:
+                return Failure("inspect(limit=%r) reported %d features of %d; %d are left in the one-shot source, expected %d"
+                               % (case["limit"], m, n, rest, n - m), sig={"kind": "inspect-consumed"})
         want = {"feature_count": m}
         for k in case["look_for"]:
             if k == "feature_count":
